@@ -203,6 +203,13 @@ func (p *Program) verifyFuncPass(con *Contract, prev *VC) (res *funcResult) {
 				vc.obls = nil
 				return
 			}
+			if strings.Contains(msg, "no reference in value of type sync.") {
+				// the contract names the lock by reference (an object shared by all callers); in this tree
+				// the expression is a mutex *value* (copied with its enclosing struct): a failed lock obligation
+				o := vc.oblige("lock", con.FuncName+"/lock[the lock is one object shared by all callers, not a copy]", "true", "false", "")
+				o.Result = &SolverResult{Status: "unknown", Solver: "gvc", Output: msg + ": a sync.Mutex/RWMutex held by value is copied with the struct that contains it"}
+				return
+			}
 			o := vc.oblige("engine", con.FuncName+"/engine[out of subset]", "true", "false", "")
 			o.Result = &SolverResult{Status: "unknown", Solver: "gvc", Output: msg}
 		}
